@@ -52,13 +52,11 @@ def otherHyps (z : Zone) (q : Query) (skip : String) : Bool :=
   zoneWF z origin &&
   (skip == "gap" || !WildcardGap z origin q) &&
   (skip == "nested" || !NestedCut z origin q) &&
-  (skip == "nsany" || !nsAnyBelowCut z origin q) &&
-  (skip == "soa" || !soaBelowCut z origin q) &&
   (skip == "cname" || !cnameIntoCut z origin q) &&
   !anyNotAtOwner z q
 
 def deviates (z : Zone) (q : Query) : Bool :=
-  !conformsModAA (answerImpl z origin q) (answerSpec MAX_CNAME_DEPTH z origin q)
+  !conforms (answerImpl z origin q) (answerSpec MAX_CNAME_DEPTH z origin q)
 
 /-- `host1.example. MX`: exists, must be NODATA; synthesised from `*.example.` -/
 def qExisting : Query := { name := [lHost1, lExample], type := T_MX }
@@ -116,32 +114,30 @@ theorem witness_nested_cut :
     (answerImpl zNested origin qNested).authority = [deepNs] ∧
     (answerSpec MAX_CNAME_DEPTH zNested origin qNested).authority = some [subNs] := by decide
 
-/-- `www.sub.example. A`: a referral, answered with AA set -/
+/-! Repaired in /repo af8bb96 (`fix:` referral detection): the former witnesses of the classes
+`referral-aa`, `ns-any-below-cut`, `soa-below-cut` are now regression theorems — on the same
+zones and queries the model of the repaired code gives the prescribed answer, AA included. -/
+
+/-- `www.sub.example. A`: a referral, AA clear -/
 def qReferral : Query := { name := [lWww, lSub, lExample], type := T_A }
-theorem witness_referral_aa :
-    otherHyps zCut qReferral "" = true ∧
-    referralAA zCut origin qReferral = true ∧
-    deviates zCut qReferral = false ∧
-    (answerImpl zCut origin qReferral).aa = true ∧
-    (answerSpec MAX_CNAME_DEPTH zCut origin qReferral).aa = false := by decide
+theorem fixed_referral_aa :
+    otherHyps zCut qReferral "" = true ∧ deviates zCut qReferral = false ∧
+    (answerImpl zCut origin qReferral).aa = false ∧
+    (answerImpl zCut origin qReferral).authority = [subNs] := by decide
 
-/-- `sub.example. NS` at the cut: NS RRset of the cut in the answer section -/
+/-- `sub.example. NS` at the cut: a referral, not an answer -/
 def qNsAtCut : Query := { name := [lSub, lExample], type := T_NS }
-theorem witness_ns_any_below_cut :
-    otherHyps zCut qNsAtCut "nsany" = true ∧
-    nsAnyBelowCut zCut origin qNsAtCut = true ∧
-    deviates zCut qNsAtCut = true ∧
-    (answerImpl zCut origin qNsAtCut).answers = [subNs] ∧
-    (answerSpec MAX_CNAME_DEPTH zCut origin qNsAtCut).answers = [] := by decide
+theorem fixed_ns_any_below_cut :
+    otherHyps zCut qNsAtCut "" = true ∧ deviates zCut qNsAtCut = false ∧
+    (answerImpl zCut origin qNsAtCut).answers = [] ∧
+    (answerImpl zCut origin qNsAtCut).authority = [subNs] ∧
+    deviates zCut { name := [lSub, lExample], type := T_ANY } = false := by decide
 
-/-- `www.sub.example. SOA`: apex NS appended to the referral -/
+/-- `www.sub.example. SOA`: the referral only -/
 def qSoaBelow : Query := { name := [lWww, lSub, lExample], type := T_SOA }
-theorem witness_soa_below_cut :
-    otherHyps zCut qSoaBelow "soa" = true ∧
-    soaBelowCut zCut origin qSoaBelow = true ∧
-    deviates zCut qSoaBelow = true ∧
-    (answerImpl zCut origin qSoaBelow).authority = [subNs, apexNs] ∧
-    (answerSpec MAX_CNAME_DEPTH zCut origin qSoaBelow).authority = some [subNs] := by decide
+theorem fixed_soa_below_cut :
+    otherHyps zCut qSoaBelow "" = true ∧ deviates zCut qSoaBelow = false ∧
+    (answerImpl zCut origin qSoaBelow).authority = [subNs] := by decide
 
 /-- `alias.example. A`, alias → `www.sub.example.` below the cut -/
 def qAlias : Query := { name := [lAlias, lExample], type := T_A }
@@ -235,7 +231,7 @@ theorem witness_wildcard_expansion_not_proven :
 
 def hypsHold (z : Zone) (q : Query) : Bool :=
   Dev.zoneWF z origin && !Dev.WildcardGap z origin q && !Dev.NestedCut z origin q &&
-  !Dev.nsAnyBelowCut z origin q && !Dev.soaBelowCut z origin q && !Dev.cnameIntoCut z origin q &&
+  !Dev.cnameIntoCut z origin q &&
   !Dev.anyNotAtOwner z q
 
 /-- wildcard synthesis from the closest encloser: `host3.example. MX` from `*.example. MX` -/
